@@ -564,6 +564,8 @@ def norm_text(node):
     except Exception:
         s = type(node).__name__
     s = ' '.join(s.split())
+    if isinstance(node, (ast.Yield, ast.YieldFrom, ast.Await)) and s.startswith('(') and s.endswith(')'):
+        s = s[1:-1]
     return s[:160]
 
 
